@@ -272,6 +272,9 @@ pub enum HStep {
     Create { t: u8, cols: Vec<ColDef> },
     Drop { t: u8 },
     Reopen { close: u8 },
+    /// create table `t` with the column list of the `like`-th live table: a
+    /// creation that may add no new string to the pool at all
+    CreateLike { t: u8, like: u8 },
 }
 
 #[derive(Clone, Debug, Serialize, Deserialize, Hash, PartialEq, Eq)]
@@ -315,7 +318,22 @@ pub fn check_hist(case: &HistCase, st: &mut Stats) -> Check {
     let mut dropped = false;
     let mut created_after_drop = false;
     for step in &case.steps {
+        // late-bound: a copy of a live table's column list
+        let resolved;
+        let step = match step {
+            HStep::CreateLike { t, like } => {
+                if model.is_empty() {
+                    continue;
+                }
+                let cols = model.values().nth(*like as usize % model.len()).unwrap().clone();
+                st.class("history:create-like");
+                resolved = HStep::Create { t: *t, cols };
+                &resolved
+            }
+            other => other,
+        };
         match step {
+            HStep::CreateLike { .. } => unreachable!(),
             HStep::Create { t, cols } => {
                 let name = HT[*t as usize % HT.len()];
                 trace.push_str(&format!("create_table({name}, {}); ", cols.iter().map(|c| format!("{}:{:?}", c.name, c.ty)).collect::<Vec<_>>().join(",")));
@@ -416,7 +434,8 @@ fn hist_strategy() -> impl Strategy<Value = HistCase> {
     let step = prop_oneof![
         6 => (0u8..4, cols).prop_map(|(t, cols)| HStep::Create { t, cols }),
         4 => (0u8..4).prop_map(|t| HStep::Drop { t }),
-        2 => (0u8..3).prop_map(|close| HStep::Reopen { close }),
+        3 => (0u8..3).prop_map(|close| HStep::Reopen { close }),
+        3 => (0u8..4, any::<u8>()).prop_map(|(t, like)| HStep::CreateLike { t, like }),
     ];
     prop::collection::vec(step, 2..9).prop_map(|steps| HistCase { steps })
 }
